@@ -95,9 +95,13 @@ def untyped_i32_text(ast):
         # unsigned vs. an unspecified signed element type): aggregates inside an array stay non-negative
         if k == "array" and any(x[0] not in ("int", "bool") for x in ast[1]) and any("-" in p for p in parts):
             return None
+        # the default-to-i32 step of `let mut` reaches the numbers of a flat tuple or array only
+        # (`let mut m = (true, (false, 1)); -m.1.1`, `(true, [1, 2])`, `[(1, true)]` are rejected): no nesting
+        if any(x[0] not in ("int", "bool") for x in ast[1]):
+            return None
         return ("[" + ", ".join(parts) + "]") if k == "array" else ("(" + ", ".join(parts) + ")")
     if k == "repeat":
-        p = untyped_i32_text(ast[1])
+        p = untyped_i32_text(ast[1]) if ast[1][0] in ("int", "bool") else None
         return None if p is None else f"[{p}; {ast[2]}]"
     return None
 
